@@ -273,6 +273,7 @@ def run(ctx: Context) -> None:
         inventory_obligations(ctx, 'R16.3')
         from . import infra as _infra163
         _infra163.ugrid_inventory(ctx, 'R16.3')
+        _infra163.cf_inventory_bounds(ctx, 'R16.3')
 
     # ---- R16.4 canonical bytes
     with ctx.section('R16.4 canonical bytes'):
